@@ -458,6 +458,8 @@ def run_verus_unit(unit, width, results, key):
             continue
         if f.get('mode') == 'spec':
             continue
+        if short == 'clone' or 'impl&%' in fname:
+            continue        # derived Clone impls and associated constants of the prelude: nothing to prove, not counted
         oid = '%s:%s' % (oid_prefix, fname)
         src = metas.get(fname)
         kind = 'contract on extracted real function' if src else ('lemma' if f.get('mode') == 'proof' else 'prelude shim')
@@ -656,6 +658,15 @@ def write_evidence(prop, tier, seed, results, key, wall, n_viol, undecided):
         d = by_label.setdefault(r['label'], dict(obligations=0, discharged=0))
         d['obligations'] += 1
         d['discharged'] += 1 if r['status'] == 'pass' else 0
+    # what the P obligations are: contracts on extracted real functions are the proved code; lemmas and the
+    # bodies of prelude shims are supporting obligations (they are checked, but they are not code of /repo)
+    p_kinds = {}
+    for r in results.values():
+        if r['label'] == 'P':
+            k = r.get('kind') or 'other'
+            d = p_kinds.setdefault(k, dict(obligations=0, discharged=0))
+            d['obligations'] += 1
+            d['discharged'] += 1 if r['status'] == 'pass' else 0
     fns = {}
     for r in results.values():
         for f in r.get('fns', []):
@@ -710,7 +721,7 @@ def write_evidence(prop, tier, seed, results, key, wall, n_viol, undecided):
     trusted = [
         'rustc MIR -> Kani 0.68 GOTO translation, CBMC 6.11 + CaDiCaL; Kani models of alloc/dealloc and x86 SIMD intrinsics',
         'Verus 0.2026.09.13 + Z3; dialect preludes (shim types, assumed std specs) listed under assumptions',
-        'mechanical extraction rules R1-R10 (lib/extract.py); hit counts under rewrite_rule_hits',
+        'mechanical extraction rules R1-R29 (lib/extract.py, lib/vunits.py; table in DESIGN.md section 0); hit counts under rewrite_rule_hits',
         'usize is 64-bit; 32-bit targets not covered',
         'specification predicates in /verif/hook/*.rs and /verif/contracts/*.vspec say what the property says (reviewed by hand)',
     ]
@@ -724,6 +735,7 @@ def write_evidence(prop, tier, seed, results, key, wall, n_viol, undecided):
         obligations=n_counted, discharged=npass_counted,
         supplementary_bounded_obligations=[k for k, r in sorted(results.items()) if prop in (r.get('supplementary_for') or [])],
         by_label=by_label,
+        verus_obligations_by_kind=p_kinds,
         label_meaning=dict(P='proved: Verus, all inputs, unbounded', C='complete: CBMC over the full finite machine domain, loop-free or structurally bounded',
                            B='bounded-inductive: CBMC from every abstract state of a table with the stated bucket count; NOT counted as proved',
                            R='runtime: the same contracts evaluated natively on sampled abstract states (stand-in where CBMC symbolic execution does not terminate; the only engine that unwinds); NOT counted as proved'),
